@@ -50,28 +50,38 @@ fn o19_1_finalize_dealloc_layout_1448_plus_empty() { finalize_layout(0, true); }
 #[kani::unwind(3)]
 fn o19_1_finalize_dealloc_layout_2896() { finalize_layout(1448, false); }
 
-//@h props=C04 tier=quick timeout=900 role=fragment-buffer-dup
-//@fn FragmentBuffer::{new, write, is_finished}
-//@bound two fragments, three writes choosing any fragment index each time, contents differ per write: the first write of a fragment wins, completion exactly when both were seen
-#[kani::proof]
-#[kani::unwind(5)]
-fn o4_3_fragment_buffer_first_write_wins() {
+fn dup_script(dup_first: bool) {
+    // a fragment arrives twice with DIFFERENT contents before the packet completes: the first copy wins
     let mut fb = FragmentBuffer::new(2);
-    let mut seen = [false, false];
-    let mut val = [0u8, 0u8];
-    let mut w = 0;
-    while w < 3 {
-        let idx: usize = kani::any();
-        kani::assume(idx < 2);
-        let v: u8 = kani::any();
-        let data: Box<[u8]> = if idx == 0 { let mut d = vec![0u8; MAX_FRAGMENT_SIZE].into_boxed_slice(); d[5] = v; d } else { Box::new([v]) };
-        fb.write(idx, data);
-        if !seen[idx] { seen[idx] = true; val[idx] = v; }
-        assert!(fb.is_finished() == (seen[0] && seen[1]), "[C04] complete exactly when every fragment was seen");
-        w += 1;
+    let (v1, v2, x1, x2): (u8, u8, u8, u8) = (kani::any(), kani::any(), kani::any(), kani::any());
+    let full = |v: u8| -> Box<[u8]> { let mut d = vec![0u8; MAX_FRAGMENT_SIZE].into_boxed_slice(); d[5] = v; d };
+    if dup_first {
+        fb.write(0, full(v1));
+        fb.write(0, full(v2));
+        assert!(!fb.is_finished(), "[C04] a repeated fragment does not complete the packet");
+        fb.write(1, Box::new([x1]));
+    } else {
+        fb.write(1, Box::new([x1]));
+        fb.write(1, Box::new([x2]));
+        assert!(!fb.is_finished(), "[C04] a repeated fragment does not complete the packet");
+        fb.write(0, full(v1));
     }
-    if seen[0] { assert!(fb.buffer[5] == val[0], "[C04] a repeated fragment never overwrites the first copy"); }
-    if seen[1] { assert!(fb.buffer[MAX_FRAGMENT_SIZE] == val[1], "[C04] a repeated fragment never overwrites the first copy"); }
-    assert!(fb.total_size == (if seen[0] { MAX_FRAGMENT_SIZE } else { 0 }) + (if seen[1] { 1 } else { 0 }));
+    assert!(fb.is_finished(), "[C04] complete exactly when every fragment was seen");
+    assert!(fb.buffer[5] == v1 && fb.buffer[MAX_FRAGMENT_SIZE] == x1, "[C04] a repeated fragment never overwrites the first copy");
+    assert!(fb.total_size == MAX_FRAGMENT_SIZE + 1);
     std::mem::forget(fb);
 }
+
+//@h props=C04 tier=quick timeout=900 role=fragment-buffer-dup
+//@fn FragmentBuffer::{new, write, is_finished}
+//@bound two fragments (1448 + 1 bytes); fragment 0 written twice with different symbolic contents, then fragment 1
+#[kani::proof]
+#[kani::unwind(3)]
+fn o4_3_fragment_buffer_first_write_wins_dup0() { dup_script(true); }
+
+//@h props=C04 tier=quick timeout=900 role=fragment-buffer-dup
+//@fn FragmentBuffer::{new, write, is_finished}
+//@bound two fragments; the last fragment written twice with different symbolic contents, then fragment 0
+#[kani::proof]
+#[kani::unwind(3)]
+fn o4_3_fragment_buffer_first_write_wins_dup1() { dup_script(false); }
